@@ -1,8 +1,8 @@
 SPECIFICATION Spec
 CONSTANTS
   Handles = {1, 2, 3, 4, 5, 6}
-  RowDims = {1, 2, 3}
-  ColDims = {1, 63, 64, 65, 128, 130}
+  RowDims = {1, 2, 3, 65}
+  ColDims = {1, 2, 3, 63, 64, 65, 128, 130}
   Seeds = {0, 1, 2, 3}
   ABSTRACT = TRUE
   Depth = 24
